@@ -560,6 +560,11 @@ class Lowerer:
         elif key == 'std::function<opaque>':
             fields = []
             self.note('std::function objects are opaque (never called in lowered code)')
+        elif re.match(r'^std::map<(.*)>$', key) and self.spec.get('model_std_map'):
+            kv = split_top(key[len('std::map<'):-1])
+            et = self.parse_type('std::pair<%s,%s>' % (kv[0], kv[1]))
+            fields = [(Ty('ptr', to=et), '_data'), (Ty('b', name='unsigned long'), '_size'), (Ty('b', name='unsigned long'), '_cap')]
+            self.note('builtin record model std::map<K,V> -> {pair<K,V>* _data; size_t _size; size_t _cap}: an association list with unique keys in a buffer of fixed capacity supplied by the harness; iteration order is storage order, not key order (trusted)')
         elif re.match(r'^std::vector<(.*)>$', key):
             a = split_top(key[len('std::vector<'):-1])[0]
             fields = [(Ty('ptr', to=self.parse_type(a)), '_data'), (Ty('b', name='unsigned long'), '_size'),
@@ -1197,6 +1202,8 @@ class Lowerer:
         t = n.get('type', {})
         s = (t.get('desugaredQualType') or '') + ' ' + (t.get('qualType') or '')
         for d in self.DROPPABLE:
+            if d == 'std::map<' and self.spec.get('model_std_map'):
+                continue
             if d in s:
                 return d.rstrip('<')
         for c in n.get('inner', []):
@@ -1342,13 +1349,20 @@ class Lowerer:
         #   for (T* it = begin(c), *e = end(c); it != e; ++it) { decl p = *it; body }
         rt = self.ty(rv['type']).noref()
         rkey = rt.key or ''
-        if rt.kind == 'rec' and (rkey.startswith('std::vector<') or 'VecView<' in rkey or 'Vec<' in rkey):
+        if rt.kind == 'rec' and (rkey.startswith('std::vector<') or 'VecView<' in rkey or 'Vec<' in rkey or (rkey.startswith('std::map<') and self.spec.get('model_std_map'))):
             f = self.cur
             lid = f.loops
             f.loops += 1
             cexpr = init
             et = None
-            if rkey.startswith('std::vector<'):
+            if rkey.startswith('std::map<'):
+                self.need_record(rt)
+                kv = split_top(rkey[len('std::map<'):-1])
+                et = self.parse_type('std::pair<%s,%s>' % (kv[0], kv[1]))
+                base = self.addr(cexpr)
+                b = '(%s)->_data' % base
+                en = '((%s)->_data + (%s)->_size)' % (base, base)
+            elif rkey.startswith('std::vector<'):
                 self.need_record(rt)
                 et = self.parse_type(split_top(rkey[len('std::vector<'):-1])[0])
                 base = self.addr(cexpr)
@@ -2574,6 +2588,24 @@ class Lowerer:
                 return '(%s)->_M_elems[%s]' % (obj, self.expr(args[0]))
             if name == 'size':
                 return '((unsigned long)%s)' % split_top(key[len('std::array<'):-1])[1].rstrip('UL')
+        if key.startswith('std::map<') and self.spec.get('model_std_map'):
+            self.need_record(bt)
+            kv = split_top(key[len('std::map<'):-1])
+            et = self.parse_type('std::pair<%s,%s>' % (kv[0], kv[1]))
+            self.need_record(et)
+            kt, vt = self.parse_type(kv[0]), self.parse_type(kv[1])
+            m = mangle(bt.name)
+            if name == 'size':
+                return '(%s)->_size' % obj
+            if name == 'empty':
+                return '((%s)->_size == 0)' % obj
+            if name == 'operator[]' and len(args) == 1:
+                h = self.helper('stdmap_at_%s' % m,
+                                'static inline %s* stdmap_at_%s(struct %s* mp, %s k) { for (unsigned long i = 0; i < mp->_size; i++) if (mp->_data[i].first == k) return &mp->_data[i].second; '
+                                '__CPROVER_assert(mp->_size < mp->_cap, "std::map model: capacity supplied by the harness suffices"); mp->_data[mp->_size].first = k; return &mp->_data[mp->_size++].second; }'
+                                % (self.cty(vt), m, bt.name, self.cty(kt)))
+                self.note('std::map::operator[] modelled as find-or-append over the association list; a new entry has an arbitrary value until assigned (trusted)')
+                return '(*%s(%s, %s))' % (h, obj, self.expr(args[0]))
         if key.startswith('std::vector<'):
             self.need_record(bt)
             if name == 'operator[]':
